@@ -234,7 +234,7 @@ func TestC16(t *testing.T) {
 		fmt.Println("REPLAY case passed")
 		return
 	}
-	ev.Rule("128-byte headers followed by a one-tag table: all-zero and all-ones (with signature), walking ones over all 1024 bit positions on a base with a valid date (signature bits must flip the outcome to 'rejected'), all 65,536 values of the two version bytes, every valid date-time component value, rapid headers (random bytes, signature kept or perturbed). Oracle: encoding/binary big-endian reads at the ICC.1 offsets. non-trivial = distinct header with non-zero flags word, bug-fix nibble, attributes or reserved area")
+	ev.Rule("128-byte headers followed by a one-tag table: all-zero and all-ones (with signature), walking ones over all 1024 bit positions on a base with a valid date (signature bits must flip the outcome to 'rejected'), all 65,536 values of the two version bytes, every valid date-time component value, rapid headers (random bytes, signature kept or perturbed), and histories (3-12 random headers, a quarter without the signature, parsed in order and then the accepted ones again on 2-16 goroutines at once, each compared with its own single-threaded result). Oracle: encoding/binary big-endian reads at the ICC.1 offsets. non-trivial = distinct header with non-zero flags word, bug-fix nibble, attributes or reserved area")
 	ev.Assume("ICC.1:2010 table 17 offsets as transcribed in the check; creation time compared only when its components form a valid calendar date")
 	bad := map[string]bool{}
 	run := func(h [128]byte, tag string) {
